@@ -1,4 +1,5 @@
 import Gopki.Model.Db
+import Gopki.Lemmas.PemRound
 /-! # C14 — existing private keys and CSRs are reused, never replaced or invented -/
 namespace C14
 open Gen Config
@@ -64,5 +65,13 @@ theorem C14_generate_returns_stored_key (s : Db.State) (a : String) (o : Oracle)
       · simp at h
       · simp only [Except.ok.injEq] at h
         subst h; exact hkey
+
+/-- **the file layer keeps key and request**: the text `exportPemFile` writes is imported again (`ReadPem` + `importPem`,
+    at the level of PEM blocks) as the same certificate and the same key; with no key in the file the request comes back —
+    "the request stays in the file and no private key is written" survives the write / read cycle —, and with a key the
+    key is what the entity continues with.  Contents of any length. -/
+theorem C14_file_layer_keeps_key_and_request (hash c : Der.Bytes) (k r : Option Der.Bytes) :
+    Pem.importParts (Pem.readAll 5 (Pem.exportFile hash (some c) k r)).1 = ⟨some c, k, if k.isSome then none else r⟩ :=
+  Pem.import_exportFile hash c k r
 
 end C14
